@@ -229,9 +229,24 @@ CaseOf(c) ==
      expect |-> [ok |-> ref.ok, out |-> ref.out, err |-> ref.err,
                  calls |-> [id \in AllIds |-> CountOf(ref.calls, id)]]]
 
-Init == cs \in Cases \cup RelCases
+\* a library whose TOP LEVEL fails (it imports a template that does not exist, calls a failing callback, uses an unknown filter).
+\* Whether importing a library runs its top level is not stated; whatever the first render reports, the second render on the same
+\* engine reports too (the harness renders every case again: -again 1) -- a failure is not something that happens once
+LibFail == [ imp |-> <<Import(LS(NT.nx), "H")>>, errm |-> <<Set("c", Attr(Var("eo"), "Name"))>>, nofn |-> <<Do(Call("nofn", <<>>))>>, nofilter |-> <<PrintS(Filt("nofilter", LI(1), <<>>))>>, inc |-> <<Inc(LS(NT.nx))>> ]
+RepeatCases == {[repeat |-> r, via |-> v, id |-> "", nth |-> 0] : r \in DOMAIN LibFail, v \in {"import", "from", "importcall"}}
+RepeatTp(c) == ("main" :> (CASE c.via = "import" -> <<T(<<97>>), Import(LS(NT.t1), "L"), T(<<98>>)>>
+                             [] c.via = "from" -> <<T(<<97>>), From(LS(NT.t1), <<"mm">>, <<"mm">>), T(<<98>>)>>
+                             [] OTHER -> <<T(<<97>>), Import(LS(NT.t1), "L"), PrintS(MCall("L", "mm", <<LI(1)>>)), T(<<98>>)>>))
+               @@ ("t1" :> Lib \o LibFail[c.repeat])
+CaseOfRepeat(c) ==
+    [prop |-> "C17", key |-> ToJson(c), tags |-> {"kind:repeat", "lib:" \o c.repeat, "via:" \o c.via}, entry |-> "main", ctx |-> Ctx,
+     cfg |-> [faultid |-> c.id, faultnth |-> c.nth, faultload |-> "", loader |-> TRUE, spynames |-> <<"range", "length">>, spyfilternames |-> <<"spaceless">>],
+     runs |-> {[label |-> "repeat", tp |-> Sources(RepeatTp(c), LMin), xcalls |-> [id \in {} |-> 0], again |-> 2]},
+     expect |-> [ok |-> TRUE, anyoutcome |-> TRUE, out |-> <<>>, noout |-> TRUE, err |-> "", calls |-> [id \in {} |-> 0]]]
+
+Init == cs \in Cases \cup RelCases \cup RepeatCases
 Next == UNCHANGED cs
 Spec == Init /\ [][Next]_cs
-Emit == PrintT(ToJson(CaseOf(cs)))
-ModelOK == Surfaces(cs)
+Emit == PrintT(ToJson(IF "repeat" \in DOMAIN cs THEN CaseOfRepeat(cs) ELSE CaseOf(cs)))
+ModelOK == "repeat" \in DOMAIN cs \/ Surfaces(cs)
 =============================================================================
